@@ -224,8 +224,33 @@ func tableDocs(c *Ctx) (docs []string, kinds []string) {
 	return docs, kinds
 }
 
+// scaledDocs: a pattern repeated until the document is just below, at and just above the sizes at
+// which buffers, caches and statistics of an implementation typically change behaviour.
+func scaledDocs() []string {
+	pats := []string{"a ", "[a](/b) ", "*a* **b** ", "`a` ", "&amp; &#65; ", "- a\n", "> a\n", "a\n", "a\n\n", "# a b\n\n", "[r] ", "<b>x</b> ", "a\\\n", "1. a\n   b\n", "http://a.b/c ", "\"q\" -- ", "~~s~~ "}
+	var out []string
+	for _, p := range pats {
+		for _, size := range []int{64, 128, 256, 512, 1024, 4096, 8192} {
+			for _, d := range []int{-1, 0, 1} {
+				n := (size + d*len(p)) / len(p)
+				if n < 1 {
+					continue
+				}
+				doc := strings.Repeat(p, n)
+				if p == "[r] " {
+					doc += "\n\n[r]: /u\n"
+				}
+				out = append(out, doc)
+			}
+		}
+	}
+	out = append(out, "| a | b |\n|---|---|\n"+strings.Repeat("| `x\\|y` | z |\n", 70), "x"+strings.Repeat("[^1]", 40)+"\n\n[^1]: n\n", strings.Repeat("- [ ] t\n", 130))
+	return out
+}
+
 func generatedDocs(c *Ctx, nSim int) []string {
 	out, _ := tableDocs(c)
+	out = append(out, scaledDocs()...)
 	seen := map[string]bool{}
 	r := RunTLC(TLCOpts{Module: "CMGen", Cfg: "gen.cfg", CfgText: cmCfg(5, 3, true, true), Workers: 4, Timeout: 30 * time.Minute,
 		Simulate: fmt.Sprintf("num=%d", nSim/4), Depth: 40, Seed: c.Seed*17 + 5, OnJSON: func(raw []byte) {
